@@ -60,6 +60,16 @@ uint64_t g_kclk;      /* its clock */
 #define RD64(p) (*(const uint64_t *) (p))
 #define NORMAL_SIZE(fl) (12L + ((fl) & 0x0f) + (((fl) & 0x0f) != 0))
 
+#ifdef A5_REAL_SIZE
+/* C19 variant: the REAL ovni_ev_size / ovni_payload_size / get_jumbo_payload_size (rt/ovni.c) also run on the
+ * region bytes and must return the size computed by the monitor.  Exception (CBMC artefact, see c19_stream.c):
+ * `ev->payload.jumbo.size` is checked as an access to the whole 16-byte payload union, so the real function is
+ * not run on a jumbo event that has fewer than 28 bytes of room (the monitor's byte-exact reads cover it). */
+#define ovni_ev_size a5_real_ovni_ev_size
+#include "ovni.c"          /* the real /repo/src/rt/ovni.c */
+#undef ovni_ev_size
+#endif
+
 int
 ovni_ev_size(const struct ovni_ev *ev)
 {
@@ -81,6 +91,10 @@ ovni_ev_size(const struct ovni_ev *ev)
 	__CPROVER_assume(sz <= avail && sz <= INT32_MAX);
 	__CPROVER_assume(sz == avail || avail - sz >= 12);     /* header room of the next event (its own conjunct) */
 	__CPROVER_assume((g_cnt + 1 == g_n) == (sz == avail));  /* the region holds exactly g_n events */
+#ifdef A5_REAL_SIZE
+	if (!((fl & OVNI_EV_JUMBO) && avail < 28))
+		VASSERT(a5_real_ovni_ev_size((const struct ovni_ev *) q) == sz, "the real ovni_ev_size returns the size the trace format defines");
+#endif
 	uint64_t clk = RD64(q + 4);
 	if (g_cnt == 0 || clk < g_min) { g_min = clk; g_min_at = g_chain; }
 	if (g_cnt == g_k) { g_khit = 1; g_kpos = g_chain; g_ksz = sz; g_kclk = clk; }
@@ -93,7 +107,9 @@ struct stream;
 int stream_step(struct stream *stream) { (void) stream; return nondet_int(); }
 struct ovni_ev g_cur_ev;
 struct ovni_ev *stream_ev(struct stream *stream) { (void) stream; return &g_cur_ev; }
+#ifndef A5_REAL_SIZE
 uint64_t ovni_ev_get_clock(const struct ovni_ev *ev) { return ev->header.clock; }
+#endif
 
 #define main ovnisort_main
 #include "ovnisort.c"          /* the real /repo/src/emu/ovnisort.c */
